@@ -184,6 +184,9 @@ func (ex *Exec) execInstr(fr *Frame, st *State, in ssa.Instruction) {
 			}
 		}
 	case *ssa.Store:
+		if p, ok := ex.operand(fr, x.Addr).(*Term); ok && p.Sort == SPtr {
+			ex.derefCheck(fr, st, p, x.Pos(), x.Addr.Name())
+		}
 		ex.store(fr, st, ex.operand(fr, x.Addr), x.Val.Type(), ex.operand(fr, x.Val))
 	case *ssa.UnOp:
 		fr.regs[x] = ex.unop(fr, st, x)
@@ -195,6 +198,7 @@ func (ex *Exec) execInstr(fr *Frame, st *State, in ssa.Instruction) {
 		case *LocalPtr:
 			fr.regs[x] = &LocalPtr{Cell: p.Cell, Path: append(append([]pathElem{}, p.Path...), pathElem{Field: x.Field})}
 		case *Term:
+			ex.derefCheck(fr, st, p, x.Pos(), x.X.Name())
 			fr.regs[x] = Fld(p, fieldID(elemOfPtr(x.X.Type()).Underlying().(*types.Struct), x.Field))
 		default:
 			unsupp("FieldAddr on %T", base)
@@ -350,6 +354,9 @@ func (ex *Exec) unop(fr *Frame, st *State, x *ssa.UnOp) Val {
 			if c := ex.constGlobal(g); c != nil {
 				return c
 			}
+		}
+		if p, ok := v.(*Term); ok && p.Sort == SPtr {
+			ex.derefCheck(fr, st, p, x.Pos(), x.X.Name())
 		}
 		r := ex.load(fr, st, v, x.Type())
 		if g, ok := x.X.(*ssa.Global); ok && ex.spec == 0 {
